@@ -340,3 +340,19 @@ MUTANTS += [
   "old": "            \"\".join([i._latex(printer) for i in self.args[1]]),\n            \"\".join([i._latex(printer) for i in self.args[2]])",
   "new": "            \"\".join([i._latex(printer) for i in self.args[2]]),\n            \"\".join([i._latex(printer) for i in self.args[1]])"},
 ]
+
+_GS = "adcgen/groundstate.py"
+MUTANTS += [
+ {"id": "c02-expval-orders-swapped", "prop": "C02", "file": _GS,
+  "old": "                i1 = wfn[term[0]]['bra'] * op * wfn[term[1]]['ket']",
+  "new": "                i1 = wfn[term[1]]['bra'] * op * wfn[term[0]]['bra']"},
+ {"id": "c02-expval-table-too-short", "prop": "C02", "file": _GS,
+  "old": "        for o in range(order + 1):\n            wfn[o] = {}",
+  "new": "        for o in range(order):\n            wfn[o] = {}"},
+ {"id": "c02-expval-no-norm", "prop": "C02", "file": _GS,
+  "old": "            res += (norm * d).expand()\n        return simplify(Expr(res)).sympy",
+  "new": "            res += d\n        return simplify(Expr(res)).sympy"},
+ {"id": "c02-expval-operator-rank", "prop": "C02", "file": _GS,
+  "old": "        op, rules = self.h.operator(n_create=n_particles,\n                                    n_annihilate=n_particles)",
+  "new": "        op, rules = self.h.operator(n_create=n_particles,\n                                    n_annihilate=n_particles - 1)"},
+]
